@@ -13,6 +13,7 @@ import (
 	"math/rand"
 	"net/http"
 	"net/http/httptest"
+	"os"
 	"regexp"
 	"runtime"
 	"strconv"
@@ -96,7 +97,9 @@ func ccFlame(g *ccGates) *flamego.Flame {
 		id := idOf(c.Request().Request)
 		g.gate(id)
 		c.Map(&reqTag{id})
-		c.Params()["_scratch"] = strconv.Itoa(id) // the Params map belongs to this request alone
+		if c.Params() != nil { // (the not-found chain has no parameters)
+			c.Params()["_scratch"] = strconv.Itoa(id) // the Params map belongs to this request alone
+		}
 		if lb := g.logs[id]; lb != nil {
 			c.Map(log.New(lb)) // a logger of this request's own (e.g. carrying its trace id): later handlers are given this one
 		}
@@ -180,6 +183,19 @@ func ccFlame(g *ccGates) *flamego.Flame {
 	f.Get("/r/{v: /[a-z0-9]+/}", h("regex"))
 	f.Get("/a/{v: **}", h("all"))
 	f.Get("/h", h("hdr")).Headers("X-K", "^k$")
+	// requests whose method is none of the registrable ones end up in the not-found chain (nothing is registered or
+	// looked up lazily for them either)
+	f.NotFound(func(c flamego.Context, t *reqTag, sv ccNamer) {
+		id := idOf(c.Request().Request)
+		g.gate(id)
+		out := ccOut{H: "unk", Tag: t.id, URL: c.URLPath("named", "v", c.Request().Header.Get("X-Val")), Wid: id, Scr: id}
+		if sv.Name() != "svc" {
+			out.H = "?svc"
+		}
+		b, _ := json.Marshal(out)
+		c.ResponseWriter().Header().Set("X-Wid", strconv.Itoa(id))
+		_, _ = c.ResponseWriter().Write(b)
+	})
 	return f
 }
 
@@ -189,8 +205,11 @@ func m0(rq ccReq) string { return fmt.Sprintf("boom-%s-%d-", rq.Val, rq.ID) }
 
 func ccRequest(rq ccReq) *http.Request {
 	path := map[string]string{"static": "/s", "param": "/p/" + rq.Val, "opt": "/o/" + rq.Val, "regex": "/r/" + rq.Val,
-		"all": "/a/" + rq.Val, "hdr": "/h", "render": "/rd/" + rq.Val, "panic": "/pn/" + rq.Val, "lone": "/lone/" + rq.Val, "deep": "/deep/er/" + rq.Val, "ret": "/ret/" + rq.Val, "body": "/bd"}[rq.Route]
+		"all": "/a/" + rq.Val, "hdr": "/h", "render": "/rd/" + rq.Val, "panic": "/pn/" + rq.Val, "lone": "/lone/" + rq.Val, "deep": "/deep/er/" + rq.Val, "ret": "/ret/" + rq.Val, "body": "/bd", "unk": "/s"}[rq.Route]
 	method := "GET"
+	if rq.Route == "unk" {
+		method = []string{"PROPFIND", "PURGE", "LINK", "get"}[rq.ID%4]
+	}
 	if rq.Route == "lone" {
 		method = "DELETE"
 	}
@@ -244,6 +263,9 @@ func ccReplay(raw json.RawMessage, idx int, tr *traceWriter) {
 				defer func() {
 					if r := recover(); r != nil {
 						results[i].panicked = true
+						if os.Getenv("VERIF_DEBUG") != "" {
+							fmt.Fprintf(os.Stderr, "request %d panicked: %v\n", rq.ID, r)
+						}
 					}
 				}()
 				f.ServeHTTP(w, ccRequest(rq))
@@ -317,7 +339,7 @@ func ccReplay(raw json.RawMessage, idx int, tr *traceWriter) {
 
 func ccGen(seed int64, n int, args []string, out *json.Encoder) {
 	rng := rand.New(rand.NewSource(seed))
-	kinds := []string{"static", "param", "opt", "regex", "all", "hdr", "render", "render", "panic", "panic", "lone", "lone", "lone", "deep", "deep", "ret", "ret", "ret", "body", "body", "body"}
+	kinds := []string{"static", "param", "opt", "regex", "all", "hdr", "render", "render", "panic", "panic", "lone", "lone", "lone", "deep", "deep", "ret", "ret", "ret", "body", "body", "body", "unk", "unk", "unk"}
 	if len(args) > 0 && args[0] == "panic" {
 		// rounds in which most requests panic at the same time (through the one Recovery instance of the round)
 		kinds = []string{"panic", "panic", "panic", "panic", "panic", "panic", "static", "param", "ret"}
